@@ -80,3 +80,6 @@ Fixpoint ffill_spec (cur : Z) (l : list Z) : list Z :=
   | [] => []
   | x :: r => let c := if x =? -1 then cur else x in c :: ffill_spec c r
   end.
+
+(* short constructor used by generated case files *)
+Definition R a s d si di t := {| r_atom := a; r_s := s; r_d := d; r_si := si; r_di := di; r_t := t |}.
